@@ -1,6 +1,7 @@
 package values
 
 import (
+	"fmt"
 	"reflect"
 	"sort"
 )
@@ -73,4 +74,22 @@ func (s sortableByProperty) Less(i, j int) bool {
 		return !s.nilFirst
 	}
 	return Less(a, b)
+}
+
+// SortedMapKeys returns the keys of a map in a deterministic order: Go randomises the order
+// of MapKeys and range, so anything that turns a map into a sequence must order its keys.
+// Keys that Less can order (numbers, strings) are ordered by it, others by type and printed form.
+func SortedMapKeys(m reflect.Value) []reflect.Value {
+	keys := m.MapKeys()
+	sort.SliceStable(keys, func(i, j int) bool {
+		a, b := keys[i].Interface(), keys[j].Interface()
+		switch {
+		case Less(a, b):
+			return true
+		case Less(b, a):
+			return false
+		}
+		return fmt.Sprintf("%T %v", a, a) < fmt.Sprintf("%T %v", b, b)
+	})
+	return keys
 }
